@@ -71,6 +71,27 @@ def reset_rules(an: Analysis, rep):
         rep.add("R06.2", f"{fn.qual}::tuple arm", ok, loc(fn.module, tarm.ret) if tarm else loc(fn.module, fn.node),
                 "tuples are normalized element-wise" if ok else "no element-wise tuple arm: blocks / nested constants are not reached")
 
+def r065(an: Analysis, rep):
+    """from_code starts a block exactly at the first instruction and at jump targets (C13).  Hand-edited data (docs/example_modify.md replaces
+    instructions with dataclasses.replace) can have a block boundary that no jump targets any more; to_code() lays the blocks out one after another,
+    from_code() of that code merges them - so the normal form is stable under that round trip only if normalize already merges such blocks
+    (and renumbers the jump targets behind them)."""
+    rep.rule("R06.5", "normalize brings the block partition to the one from_code computes (blocks no jump targets are merged)", 1)
+    fn, p, arms, fall_identity = parse_normalize(an)
+    arm = arm_for(arms, "CodeData")
+    if arm is None or arm.kind not in ("replace", "ctor") or "blocks" not in arm.kws:
+        raise AnalysisError(f"{fn.qual}: how the CodeData arm treats `blocks` is not recognised")
+    plain = is_recursion_on(fn, p, arm.kws["blocks"], "blocks")
+    renumbers = any(isinstance(c, ast.keyword) and c.arg == "target" for c in ast.walk(fn.node)) or any(
+        isinstance(c, ast.Call) and isinstance(c.func, ast.Name) and c.func.id == "Jump" for c in ast.walk(fn.node))
+    if not plain and not renumbers:
+        raise AnalysisError(f"{fn.qual}: `blocks={norm_src(arm.kws['blocks'])[:60]}` is neither the element-wise recursion nor a visible re-partition: not decided")
+    rep.add("R06.5", f"{fn.qual}::block partition is canonical", not plain or renumbers, loc(fn.module, arm.kws["blocks"]),
+            "normalize re-partitions the blocks and renumbers the jump targets" if (not plain or renumbers) else
+            f"`blocks={norm_src(arm.kws['blocks'])}` keeps the block partition it is given: a CodeData edited as in docs/example_modify.md (the only jump to a block replaced by POP_TOP) "
+            f"normalizes to 3 blocks, and normalize(from_code(that.to_code())) has 2 - the normal form changes under one to_code / from_code round trip")
+
+
 def run(an: Analysis, rep):
     rep.explanation = (
         "Decides that normalize is a projection onto 'every private (serialization-artefact) field at its declared default': for every "
@@ -112,6 +133,7 @@ def run(an: Analysis, rep):
     rep.add("R06.3", f"{fn.qual}::fall-through", fall_identity, loc(fn.module, fn.node),
             "values without an arm are returned unchanged" if fall_identity else "fall-through does not return its argument")
     rep.run(r064, an, rep)
+    rep.run(r065, an, rep)
     from .common import SharedRules
     from . import c03
     sh = SharedRules(rep, "R06.R", "encoder re-layout and table keys (shared with C03's R03.3/R03.7): normalize -> to_code -> from_code -> normalize is a fixed point only if they hold")
